@@ -408,3 +408,129 @@ Proof.
   split; [exact N3|].
   rewrite freeds_app, F2, app_nil_r. exact Inc.
 Qed.
+
+(* ================= disconnect ================= *)
+(* the log of a list of queued / collected coroutines that all find the state gone:
+   one cancel script each, in order, nothing else *)
+Inductive cancel_log : list (nat * bool) -> list ev -> Prop :=
+| cl_nil : cancel_log [] []
+| cl_cons : forall i (ready : bool) r t e, cancel_log t e ->
+    cancel_log ((i, ready) :: t) ((if ready then dead_resumed r i else dead_await r i) ++ e).
+
+Lemma dead_resumed_delivs r i : delivs (dead_resumed r i) = [].
+Proof. unfold dead_resumed. destruct r; cbn; [reflexivity|]. apply dead_await_delivs. Qed.
+Lemma dead_resumed_freeds r i : freeds (dead_resumed r i) = [].
+Proof. unfold dead_resumed. destruct r; cbn; [reflexivity|]. apply dead_await_freeds. Qed.
+Lemma dead_resumed_co_evs r i : co_evs (dead_resumed r i) = dead_resumed r i.
+Proof.
+  unfold dead_resumed. destruct r; cbn [dead_await tl]; [reflexivity|].
+  change (co_evs (ECancel i (S r) :: dead_await r i)) with (ECancel i (S r) :: co_evs (dead_await r i)).
+  rewrite dead_await_co_evs. reflexivity.
+Qed.
+
+Lemma cancel_log_props items e : cancel_log items e -> delivs e = [] /\ freeds e = [] /\ co_evs e = e.
+Proof.
+  induction 1 as [|i ready r t e H (D & F & C)]; [repeat split|].
+  rewrite delivs_app, freeds_app, co_evs_app, D, F, C.
+  destruct ready.
+  - rewrite dead_resumed_delivs, dead_resumed_freeds, dead_resumed_co_evs. repeat split.
+  - rewrite dead_await_delivs, dead_await_freeds, dead_await_co_evs. repeat split.
+Qed.
+
+Lemma run_item_dead inl it s : alive s = false ->
+  exists s' r, run_item inl it s = (s', if snd it then dead_resumed r (fst it) else dead_await r (fst it))
+               /\ same_val s s' /\ chain s' = chain s /\ queue s' = queue s.
+Proof.
+  intros A. destruct it as [i ready]. cbn [fst snd]. unfold run_item. destruct ready.
+  - destruct (co_resumed_dead i s A) as (s' & E & SV & C & Q). rewrite E. exists s', (l_retry (getl s i)). repeat split; auto; apply SV.
+  - destruct (co_await_e_dead (l_retry (getl s i)) i s A) as (s' & E & SV & C & Q). rewrite E.
+    exists s', (l_retry (getl s i)). repeat split; auto; apply SV.
+Qed.
+
+Lemma drive_dead inl items : forall s, alive s = false ->
+  exists s' e, drive inl items s = (s', e) /\ cancel_log items e
+               /\ same_val s s' /\ chain s' = chain s /\ queue s' = queue s.
+Proof.
+  induction items as [|it t IH]; intros s A; cbn [drive].
+  - exists s, []. split; [reflexivity|]. split; [constructor|]. split; [apply same_val_refl|]. split; reflexivity.
+  - destruct (run_item_dead inl it s A) as (s1 & r & E1 & SV1 & C1 & Q1). rewrite E1.
+    assert (A1 : alive s1 = false) by (rewrite (same_val_alive _ _ SV1); exact A).
+    destruct (IH s1 A1) as (s2 & e2 & E2 & CL & SV2 & C2 & Q2). rewrite E2.
+    eexists _, _. split; [reflexivity|]. split.
+    { destruct it as [i ready]. cbn [fst snd]. constructor. exact CL. }
+    split; [exact (same_val_trans _ _ _ SV1 SV2)|]. split; congruence.
+Qed.
+
+Lemma freeds_map_free l : freeds (map EFree l) = l.
+Proof. induction l as [|x t IH]; cbn; [reflexivity|]. f_equal. exact IH. Qed.
+Lemma delivs_map_free l : delivs (map EFree l) = [].
+Proof. induction l as [|x t IH]; cbn; [reflexivity|]. exact IH. Qed.
+Lemma co_evs_map_free l : co_evs (map EFree l) = [].
+Proof. induction l as [|x t IH]; cbn; [reflexivity|]. exact IH. Qed.
+
+Lemma drop_last_shape s s' o : strong s = 1%nat -> step s ODrop = (s', o) ->
+  let s1 := set_chain (set_val (set_strong s 0) VNull (owned s) (ext s)) [] in
+  exists s3 e2, dispose false (cos (chain s)) s1 = (s3, e2) /\
+    s' = set_val s3 VNull None (ext s3) /\
+    o = mkObs 0 0 0 (frees (map EFree (cbs (chain s)) ++ e2)) (map EFree (cbs (chain s)) ++ e2).
+Proof.
+  intros S1 E. cbn [step] in E. rewrite S1 in E. unfold notify in E.
+  change (chain (set_val (set_strong s 0) VNull (owned s) (ext s))) with (chain s) in E.
+  rewrite (walk_dead (chain s) (set_chain (set_val (set_strong s 0) VNull (owned s) (ext s)) []) eq_refl) in E.
+  cbn zeta. destruct (dispose false (cos (chain s)) _) as [s3 e2] eqn:D. inversion E; subst.
+  exists s3, e2. repeat split.
+Qed.
+
+Theorem disconnect : forall s s' o, strong s = 1%nat -> step s ODrop = (s', o) ->
+  o_st o = 0 /\ strong s' = 0%nat /\ chain s' = [] /\
+  freeds (o_ev o) = cbs (chain s) /\ delivs (o_ev o) = [] /\
+  (m_coro s = false -> cancel_log (ready_items (cos (chain s))) (co_evs (o_ev o)) /\ queue s' = queue s) /\
+  (m_coro s = true -> co_evs (o_ev o) = [] /\ queue s' = queue s ++ ready_items (cos (chain s))).
+Proof.
+  intros s s' o S1 E. destruct (drop_last_shape _ _ _ S1 E) as (s3 & e2 & D & -> & ->).
+  cbn [o_st o_ev]. unfold dispose in D. cbn [m_coro set_chain set_val set_strong] in D.
+  set (s1 := set_chain (set_val (set_strong s 0) VNull (owned s) (ext s)) []) in *.
+  assert (A1 : alive s1 = false) by reflexivity.
+  destruct (m_coro s) eqn:MC; cbn [negb] in D.
+  - inversion D; subst. cbn [strong chain queue set_val set_queue s1 set_chain set_strong].
+    rewrite app_nil_r, freeds_map_free, delivs_map_free, co_evs_map_free.
+    repeat split; try discriminate; reflexivity.
+  - destruct (drive_dead true (ready_items (cos (chain s))) s1 A1) as (s4 & e4 & E4 & CL & SV & C & Q).
+    rewrite E4 in D. inversion D; subst.
+    destruct (cancel_log_props _ _ CL) as (D4 & F4 & CE4).
+    cbn [strong chain queue set_val]. rewrite freeds_app, delivs_app, co_evs_app, freeds_map_free, delivs_map_free, co_evs_map_free, D4, F4, CE4, app_nil_r.
+    rewrite (sv_strong _ _ SV), C, Q.
+    repeat split; try discriminate; try reflexivity. exact CL.
+Qed.
+
+(* queued coroutines (driver is a coroutine) get their cancel when the driver next suspends *)
+Theorem disconnect_queued : forall s s' o, strong s = 0%nat -> m_coro s = true -> step s OPause = (s', o) ->
+  cancel_log (queue s) (o_ev o) /\ queue s' = [] /\ chain s' = chain s /\ strong s' = 0%nat.
+Proof.
+  intros s s' o S0 MC E. cbn [step] in E. rewrite MC in E. cbn [negb] in E.
+  assert (A : alive (set_queue s []) = false) by (unfold alive; cbn [strong set_queue]; rewrite S0; reflexivity).
+  destruct (drive_dead false (queue s) (set_queue s []) A) as (s1 & e1 & E1 & CL & SV & C & Q).
+  rewrite E1 in E. inversion E; subst. cbn [o_ev].
+  split; [exact CL|]. split; [exact Q|]. split; [exact C|]. rewrite (sv_strong _ _ SV). exact S0.
+Qed.
+
+(* ================= awaiting / connecting after the disconnect ================= *)
+Theorem await_disconnected : forall s i lim p r s' o, strong s = 0%nat -> get (tab s) i = None ->
+  step s (OSpawn i lim p r) = (s', o) ->
+  o_st o = 0 /\ o_ev o = dead_await r i /\ chain s' = chain s /\ queue s' = queue s /\ strong s' = 0%nat.
+Proof.
+  intros s i lim p r s' o S0 G E. cbn [step] in E. rewrite G in E.
+  set (s1 := setl s i _) in E.
+  assert (A : alive s1 = false) by (unfold alive; cbn [strong s1 setl set_tab]; rewrite S0; reflexivity).
+  destruct (co_await_e_dead r i s1 A) as (s2 & E2 & SV & C & Q). rewrite E2 in E. inversion E; subst.
+  cbn [o_st o_ev]. repeat split; auto. rewrite (sv_strong _ _ SV). exact S0.
+Qed.
+
+Theorem connect_disconnected : forall s i lim s' o, strong s = 0%nat -> get (tab s) i = None ->
+  step s (OConnect i lim) = (s', o) ->
+  o_ev o = [EFree i] /\ o_new o = 1 /\ o_del o = 1 /\ chain s' = chain s /\ queue s' = queue s.
+Proof.
+  intros s i lim s' o S0 G E. cbn [step] in E. rewrite G in E.
+  assert (A : alive s = false) by (unfold alive; rewrite S0; reflexivity). rewrite A in E.
+  rewrite cb_resume_dead in E by exact A. inversion E; subst. repeat split.
+Qed.
